@@ -229,6 +229,23 @@ pub fn lazy_ex(j: &J, src: &mut Src) -> Ex {
 				}
 			}
 		}
+		// a string put together from pieces: left-nested, right-nested or balanced `+`, or std.join (long results stay
+		// unflattened concatenations inside the evaluator)
+		J::Str(t) if t.chars().count() >= 2 && src.chance(1, 2) => {
+			let chars: Vec<char> = t.chars().collect();
+			let k = 2 + src.below(4);
+			let mut cuts: Vec<usize> = (0..k - 1).map(|_| src.below(chars.len() + 1)).collect();
+			cuts.push(0);
+			cuts.push(chars.len());
+			cuts.sort();
+			let pieces: Vec<Ex> = cuts.windows(2).map(|w| Ex::Str(chars[w[0]..w[1]].iter().collect(), StrStyle::Double)).collect();
+			let add = |a: Ex, b: Ex| Ex::Bin(BinOp::Add, bx(a), bx(b));
+			match src.below(4) {
+				0 | 1 => pieces.into_iter().reduce(add).unwrap(),
+				2 => pieces.into_iter().rev().reduce(|acc, p| add(p, acc)).unwrap(),
+				_ => std_call("join", vec![s(""), Ex::Arr(pieces)]),
+			}
+		}
 		other => lit_ex(other),
 	}
 }
